@@ -240,4 +240,16 @@ example : (selSpec exTree ["a b"] .below).map (·.rootedWF CT DT) = some true :=
 example : (selSpec exTree ["a b", "pla"] .no).map (·.rootedWF CT DT) = some true := by decide
 example : (selSpec exTree [] .no).map (·.rootedWF CT DT) = some true := by decide
 
+/-- the deprecated spelling `tree='noroot'` is `tree=None`, for every input, mode and file system -/
+theorem C07_noroot (sess : Session) (uuid : String) (fs : FS) (path : String) (inp : Input) (mode : String) (ep : Option String) :
+    saveArgs sess uuid fs path inp mode .noroot ep = saveArgs sess uuid fs path inp mode .below ep := rfl
+
+/-- any other value of `tree` is refused, and nothing is written -/
+theorem C07_invalid_tree_refused (sess : Session) (uuid : String) (fs : FS) (path : String) (inp : Input) (mode : String)
+    (ep : Option String) : ∃ w, saveArgs sess uuid fs path inp mode .invalid ep = .error (.refused w) := by
+  unfold saveArgs
+  cases classifyMode (effectiveMode mode ep) with
+  | none => exact ⟨_, rfl⟩
+  | some mc => exact ⟨_, rfl⟩
+
 end EmdProps
